@@ -94,6 +94,17 @@ impl MainState {
 //@end
 }
 
+// the sign in force at position i of one mode string of `MODE <nick> ..`: the last '+' / '-' before i, minus when there is none
+pub open spec fn usign(ms: Seq<char>, i: int) -> bool
+    decreases i
+{
+    if i <= 0 { false } else if ms[i - 1] == '+' { true } else if ms[i - 1] == '-' { false } else { usign(ms, i - 1) }
+}
+// letter i of mode string k is an 'o' with the minus sign in force: the operator flag is being removed (C11: "loses it by removing the mode")
+pub open spec fn minus_o_at(modes: Seq<(&str, Vec<&str>)>, k: int, i: int) -> bool {
+    0 <= k < modes.len() && 0 <= i < modes[k].0@.len() && modes[k].0@[i] == 'o' && !usign(modes[k].0@, i)
+}
+
 impl MainState {
 //@fn state/srv_query_cmds.rs MainState::process_mode_user unit=oper props=C11,C19,C05 rules=R2
 //@spec
@@ -105,6 +116,8 @@ impl MainState {
             // MODE never confers operator status (it may only drop it)
             final(state).users@[sk(target)].modes.oper ==> old(state).users@[sk(target)].modes.oper, // @prop C11
             final(state).users@[sk(target)].modes.local_oper == old(state).users@[sk(target)].modes.local_oper, // @prop C11
+            // ... and removing the mode does drop it: any `-o` among the mode strings leaves the user without operator status
+            r is Ok ==> forall|kk: int, i: int| #[trigger] minus_o_at(modes@, kk, i) ==> !final(state).users@[sk(target)].modes.oper, // @prop C11
             sym(*final(state)), // @prop C04,C05
             chans_wf(*final(state)), // @prop C04,C08
             no_empty_chan(*final(state)), // @prop C16
@@ -116,6 +129,7 @@ impl MainState {
         broadcast use group_hash_axioms, bridge, ax_string_add_assign_req;
         let ghost k = sk(target);
         let ghost o = *old(state);
+        let ghost ms0 = modes@;
         proof {
             assert forall|n: VolatileState| #![trigger state_wf(n)] #![trigger sym(n)] #![trigger chans_wf(n)] #![trigger no_empty_chan(n)] #![trigger wallops_wf(n)] #![trigger counters_wf(n)] #![trigger senders_distinct(n)] modes_upd(o, n, k) implies state_wf(n) by { lemma_modes_upd_wf(o, n, k); }
             ax_hashmap_len_bound(o.users);
@@ -135,8 +149,10 @@ impl MainState {
             assert(o.wallops_users@.insert(k) =~= o.wallops_users@ || !o.users@[k].modes.wallops);
             assert(o.wallops_users@.remove(k) =~= o.wallops_users@ || o.users@[k].modes.wallops);
         }
-//@loop ~for \(mchars, _\) in modes
+//@loop ~for \(mchars, _\) in modes iter=itm
                 invariant
+                    itm.seq() == ms0, ms0 == modes@,
+                    forall|kk: int, i: int| kk < itm.index@ && #[trigger] minus_o_at(ms0, kk, i) ==> !user.modes.oper, // @prop C11
                     conn_same_but_stream(*conn_state, *old(conn_state)),
                     user_same_except_modes(*user, o.users@[k]),
                     user.modes.oper ==> o.users@[k].modes.oper, // @prop C11
@@ -151,8 +167,12 @@ impl MainState {
                     o.users@[k].modes.invisible ==> o.invisible_users_count >= 1,
                     !local_oper(o.users@[k].modes) ==> o.operators_count < usize::MAX,
                     local_oper(o.users@[k].modes) ==> o.operators_count >= 1,
-//@loop ~for mchar in mchars\.chars\(\)
+//@loop ~for mchar in mchars\.chars\(\) iter=itc
                     invariant
+                    itc.seq() == mchars@, ms0 == modes@, itm.seq() == ms0, 0 <= itm.index@ < ms0.len(), mchars@ == ms0[itm.index@ as int].0@,
+                    mode_set == usign(mchars@, itc.index@ as int), // @prop C11
+                    forall|kk: int, i: int| kk < itm.index@ && #[trigger] minus_o_at(ms0, kk, i) ==> !user.modes.oper, // @prop C11
+                    forall|i: int| i < itc.index@ && #[trigger] minus_o_at(ms0, itm.index@ as int, i) ==> !user.modes.oper, // @prop C11
                     conn_same_but_stream(*conn_state, *old(conn_state)),
                     user_same_except_modes(*user, o.users@[k]),
                     user.modes.oper ==> o.users@[k].modes.oper, // @prop C11
